@@ -229,10 +229,19 @@ func ReadWsPayload(r *bufio.Reader) ([]byte, error) {
 		h.MaskKey = bele.BeUint32(buf)
 	}
 
-	payload := make([]byte, h.PayloadLength)
-	_, err = io.ReadFull(r, payload)
+	// rfc6455#section-5.2 the most significant bit of the 64 bit length must be 0
+	if h.PayloadLength > math.MaxInt64 {
+		err = fmt.Errorf("header error: the most significant bit must be 0")
+		return nil, err
+	}
+
+	// 长度字段由对端控制，不按它预先申请内存，而是按实际读到的数据增长
+	payload, err := io.ReadAll(io.LimitReader(r, int64(h.PayloadLength)))
 	if err != nil {
 		return nil, err
+	}
+	if uint64(len(payload)) != h.PayloadLength {
+		return nil, io.ErrUnexpectedEOF
 	}
 
 	if h.Masked {
